@@ -11,6 +11,7 @@ import (
 	"github.com/reeflective/readline/inputrc"
 
 	"verif/internal/harness"
+	"verif/internal/vt"
 )
 
 // Dump round trip (C19 part c).
@@ -77,18 +78,29 @@ type c19DumpCase struct {
 	RC    string
 	Which string // functions | macros | variables
 	Vi    bool
+	// Wrapped: a buffer longer than the terminal width is typed first (the cursor is then on the
+	// second row of the input) and what the dump printed is also read from the SCREEN: every
+	// line of it must still be there once the prompt and the line have been redisplayed
+	Wrapped bool
 }
 
 func c19DumpJob(cs *c19DumpCase) harness.Job {
 	rc := cs.RC + "\"\\C-x\\C-]f\": dump-functions\n\"\\C-x\\C-]v\": dump-variables\n\"\\C-x\\C-]m\": dump-macros\n"
 	key := map[string]string{"functions": "f", "macros": "m", "variables": "v"}[cs.Which]
 	var keys []harness.Answer
+	if cs.Wrapped {
+		keys = append(keys, Key(strings.Repeat("w", 205)))
+	}
 	if cs.Vi {
 		// numeric argument in vi insert mode: through the bound digit-argument of emacs-meta is not available;
 		// use the universal way: ESC to command mode, "1", then the dump key bound in vi-command as well
-		keys = Keys("\x1b", "1", "\x18\x1d"+key)
+		keys = append(keys, Keys("\x1b", "1", "\x18\x1d"+key)...)
 	} else {
-		keys = Keys("\x1b1", "\x18\x1d"+key)
+		keys = append(keys, Keys("\x1b1", "\x18\x1d"+key)...)
+	}
+	if cs.Wrapped {
+		return harness.Job{Cfg: harness.Config{RC: rc, W: 200, H: 50, Prompt: "> ", NoHist: true}, Calls: [][]harness.Answer{append(keys, harness.Answer{End: true})},
+			Want: harness.Want{Raw: true, Screen: 1}}
 	}
 	return harness.Job{Cfg: harness.Config{RC: rc, W: 200, H: 50, Prompt: "> ", NoHist: true}, Calls: [][]harness.Answer{append(keys, harness.Answer{End: true})},
 		Want: harness.Want{Raw: true, SkipScreen: true}}
@@ -118,6 +130,30 @@ func c19DumpVerdict(c *Ctx, cs *c19DumpCase, t *harness.Trace) (fp, what string)
 	pre := "set keymap " + km + "\n"
 	if err := inputrc.ParseBytes([]byte(pre+text), back, inputrc.WithName("dump"), inputrc.WithApp("")); err != nil {
 		return "dump-does-not-parse/" + cs.Which, fmt.Sprintf("parsing the output of dump-%s fails: %v; output:\n%s", cs.Which, err, text)
+	}
+	if cs.Wrapped {
+		// everything the dump printed must still be on the screen
+		var scr *vt.Snap
+		for i := len(call.Waits) - 1; i >= 0 && scr == nil; i-- {
+			scr = call.Waits[i].Screen
+		}
+		if call.After != nil && call.After.Screen != nil {
+			scr = call.After.Screen
+		}
+		if scr == nil {
+			return "", "not judged: no screen"
+		}
+		for _, l := range strings.Split(strings.TrimSpace(text), "\n") {
+			found := false
+			for _, row := range scr.Lines {
+				if strings.TrimRight(row, " ") == l {
+					found = true
+				}
+			}
+			if l != "" && !found {
+				return "dump-output-overwritten-on-screen/" + cs.Which, fmt.Sprintf("dump-%s printed the line %s but after the prompt and the (two-row) input line were redisplayed it is no longer on the screen; screen rows: %q", cs.Which, l, scr.Lines)
+			}
+		}
 	}
 	switch cs.Which {
 	case "functions", "macros":
@@ -248,6 +284,7 @@ func c19DumpCases() []c19DumpCase {
 		// in vi the dump keys must exist in vi-command; the fixed binds are appended under the same keymap
 		out = append(out, c19DumpCase{Name: tag + "/defaults/functions", RC: mode, Which: "functions", Vi: vi})
 		out = append(out, c19DumpCase{Name: tag + "/defaults/macros", RC: mode, Which: "macros", Vi: vi})
+		out = append(out, c19DumpCase{Name: tag + "/two macros, cursor on the second row of the input", RC: mode + "\"\\C-xq\": \"hello\"\n\"\\C-xr\": \"world\"\n", Which: "macros", Vi: vi, Wrapped: true})
 		out = append(out, c19DumpCase{Name: tag + "/defaults/variables", RC: mode, Which: "variables", Vi: vi})
 		for _, s := range c19Seqs {
 			out = append(out, c19DumpCase{Name: tag + "/bind " + s, RC: mode + "\"" + s + "\": forward-char\n", Which: "functions", Vi: vi})
